@@ -257,6 +257,24 @@ func expandPlan(pl planLine, tp template, f func(stream []byte, info [5]int, edi
 		copy(info[:], pl.Info)
 	}
 	switch pl.Kind {
+	case "shift": // JPEG 2000: move the image and the tile grid on the reference grid by D (all origins and extents): the
+		// declared image stays the same, every absolute coordinate changes
+		if len(base) < 40 || base[0] != 0xFF || base[1] != 0x4F || base[2] != 0xFF || base[3] != 0x51 {
+			return
+		}
+		for _, d := range pl.Vals {
+			m := append([]byte{}, base...)
+			for _, fld := range []int{0, 1, 2, 3, 6, 7} { // Xsiz Ysiz XOsiz YOsiz XTOsiz YTOsiz
+				o := 8 + 4*fld
+				v := uint64(m[o])<<24 | uint64(m[o+1])<<16 | uint64(m[o+2])<<8 | uint64(m[o+3])
+				v += uint64(d)
+				if v > 0xFFFFFFFF {
+					v = 0xFFFFFFFF
+				}
+				m[o], m[o+1], m[o+2], m[o+3] = byte(v>>24), byte(v>>16), byte(v>>8), byte(v)
+			}
+			f(m, info, fmt.Sprintf("shift=%d", d))
+		}
 	case "set":
 		vals := pl.Vals
 		if len(vals) == 0 {
